@@ -507,6 +507,10 @@ impl<'a> W<'a> {
                                     }
                                 } else if !any_index(rl) && !any_index(rr) {
                                     self.not("assign_update_array_value", tok, "a[k]=e op f", &pos);
+                                } else if !any_index(rl) && matches!(rop, BinOp::Sub | BinOp::Div | BinOp::Mod | BinOp::Shl | BinOp::Shr) && canon_lhs.is_some() && idx_of(rr) == canon_lhs && !paren_rhs {
+                                    // the element is the RIGHT operand of a non-commutative operator: `a[k] = e - a[k]` has no
+                                    // compound-assignment form, it is not the documented `a[k] = a[k] op e`
+                                    self.not("assign_update_array_value", tok, "a[k]=e nonCommutativeOp a[k]", &pos);
                                 } else {
                                     self.dc("assign_update_array_value", &[tok], "near-miss", &pos);
                                 }
@@ -829,7 +833,8 @@ pub fn compute(file: &File, r: &Rendered) -> Out {
                 if list.iter().any(|x| x.contains("SafeMath")) {
                     *doubt = true;
                 }
-            } else if list.len() == 1 && list[0] == "SafeMath" {
+            } else if list.len() == 1 && (list[0] == "SafeMath" || list[0].ends_with(".SafeMath")) {
+                // `using SafeMath for ..` and `using Libs.SafeMath for ..`: a library called SafeMath
                 *clear = true;
             } else if list.iter().any(|x| x.split('.').any(|s| s == "SafeMath")) {
                 *doubt = true;
